@@ -582,6 +582,14 @@ def requantize_rules(chk):
         if last is not None:
             chk.require("C10.R7", f"{mi.rel}:{calls[0].lineno}", U(last) != "None", f"requantize: `{g}` defaults to `{U(last)[:30]}` (not None) when no entry of the state_dict names a qtype", "requantize", f"gating kwarg {g} is None on a path",
                         f"quantize(model, weights=qint8, activations=qint8); with Calibration(): model(x) (the default streamlining turns every activation_qtype into None); freeze; requantize(new_model, state_dict): {sorted(set(classes))} is not recreated -> unexpected keys")
+    # (d) a default-quantized target: quantize(model) with no argument must be able to hold every module class a state_dict can contain
+    for g, classes in gating.items():
+        chk.require("C10.R7", f"{mi.rel}:{rq.lineno}", False, f"every registered module class is created by quantize() whatever `{g}` is (gated classes: {sorted(set(classes))})", "quantize", f"default-quantized target lacks the classes gated by {g}",
+                    f"a state_dict saved from a model quantized with {g}, loaded with load_state_dict() into quantize(fresh_model): Unexpected key(s) ln.input_scale, ln.output_scale, ln.weight_qtype, ln.activation_qtype")
+    # (e) tensors that are not in the state_dict survive requantize(): moving the whole model to meta and back to empty loses non-persistent buffers
+    whole_meta = any(isinstance(x, ast.Call) and U(x.func) == f"{model}.to" and "meta" in U(x) for x in ast.walk(rq)) and any(isinstance(x, ast.Call) and U(x.func) == f"{model}.to_empty" for x in ast.walk(rq))
+    chk.require("C10.R8", f"{mi.rel}:{rq.lineno}", not whole_meta, "requantize keeps the tensors of the model that the state_dict does not hold (it does not move the whole model to meta and back to empty)", "requantize", "non-persistent buffers lost",
+                "a model with a buffer registered with persistent=False (rotary embeddings, position ids): after requantize() the buffer is uninitialised memory and the outputs differ; quantize() + load_state_dict() of the same state_dict is exact")
     # (c) exactly the modules recorded in the state_dict are quantized
     mv = kw.get("modules")
     ok_mod = False
